@@ -2,6 +2,7 @@ package udp
 
 import (
 	"context"
+	"errors"
 	"net"
 	"sync"
 	"time"
@@ -9,6 +10,9 @@ import (
 	"github.com/postalsys/muti-metroo/internal/crypto"
 	"github.com/postalsys/muti-metroo/internal/identity"
 )
+
+// errAssociationClosed is returned by Encrypt and Decrypt once the association is closed.
+var errAssociationClosed = errors.New("udp association closed")
 
 // AssociationState represents the state of a UDP association.
 type AssociationState int
@@ -204,6 +208,12 @@ func (a *Association) Encrypt(plaintext []byte) ([]byte, error) {
 	a.mu.RLock()
 	defer a.mu.RUnlock()
 
+	// Close clears the key: a closed association must not be mistaken for
+	// one that never had a key (which passes data through unchanged).
+	if a.closed {
+		return nil, errAssociationClosed
+	}
+
 	if a.SessionKey == nil {
 		return plaintext, nil
 	}
@@ -218,6 +228,10 @@ func (a *Association) Encrypt(plaintext []byte) ([]byte, error) {
 func (a *Association) Decrypt(ciphertext []byte) ([]byte, error) {
 	a.mu.RLock()
 	defer a.mu.RUnlock()
+
+	if a.closed {
+		return nil, errAssociationClosed
+	}
 
 	if a.SessionKey == nil {
 		return ciphertext, nil
